@@ -109,7 +109,7 @@ Accepting(id) == seq' = IF OkStep THEN [seq EXCEPT ![id] = Append(@, LastStep.ex
 Deliver(id) ==           \* any pool message to any endpoint: reorder, loss, duplication, reflection
   /\ Tick
   /\ \E x \in pool :
-       \E ol \in (IF SmallBufs /\ x.j <= MaxSend THEN {BIG, PLenT(x.j), PLenT(x.j) - 1} ELSE {BIG}) : ReadIt(id, x.m, ol)
+       \E ol \in (IF SmallBufs /\ x.j <= MaxSend THEN {BIG, PLenT(x.j), PLenT(x.j) - 1, PLenT(x.j) + 8} ELSE {BIG}) : ReadIt(id, x.m, ol)
   /\ Accepting(id)
   /\ cnt' = [cnt EXCEPT !.d = @ + 1]
   /\ UNCHANGED pool
